@@ -561,10 +561,19 @@ func (g *Gen) switchStmt() ast.Vertex {
 		if g.chance(1, 5, "casesemi") {
 			sep = g.ch(';')
 		}
+		var lead []ast.Vertex
+		if !g.O.NoHTML && !g.O.NoAltCloseTag && g.inClass == 0 && g.chance(1, 10, "caseclosetag") {
+			// ";" may be spelled as a close tag here too: "case 1 ?>text<?php break;" (templates)
+			g.feat("case-separator-close-tag")
+			sep = g.tok(token.ID(';'), g.pick("closetag", "?>", "?>\n", "; ?>", "?>\r\n"))
+			if g.chance(2, 3, "htmlafterclose") {
+				lead = []ast.Vertex{g.inlineHTML(bytes.HasSuffix(sep.Value, []byte("\n")))}
+			}
+		}
 		if g.chance(1, 4, "default") {
-			n.Cases = append(n.Cases, &ast.StmtDefault{DefaultTkn: g.kw(token.T_DEFAULT, "default"), CaseSeparatorTkn: sep, Stmts: g.StmtList(0, 2, false)})
+			n.Cases = append(n.Cases, &ast.StmtDefault{DefaultTkn: g.kw(token.T_DEFAULT, "default"), CaseSeparatorTkn: sep, Stmts: append(lead, g.StmtList(0, 2, false)...)})
 		} else {
-			n.Cases = append(n.Cases, &ast.StmtCase{CaseTkn: g.kw(token.T_CASE, "case"), Cond: g.Expr(), CaseSeparatorTkn: sep, Stmts: g.StmtList(0, 2, false)})
+			n.Cases = append(n.Cases, &ast.StmtCase{CaseTkn: g.kw(token.T_CASE, "case"), Cond: g.Expr(), CaseSeparatorTkn: sep, Stmts: append(lead, g.StmtList(0, 2, false)...)})
 		}
 	}
 	g.inLoop--
